@@ -239,7 +239,11 @@ def run(tier):
         assumptions=["2D cell size h = dx dy / (dx + dy); Burgers cells with u = 0 have no finite step (excluded)",
                      "C18_cells is judged by Judge_Driver on the observation record of the C07 machinery"],
         mc_runs=[("MC_Fluxes", "MC_Fluxes.cfg" if tier == "quick" else "MC_Fluxes_f.cfg", 16)],
-        groups=[("Judge_Model", recs), ("Judge_Driver", drv)], prefixes=["C18"], sig_of=sig_of)
+        groups=[("Judge_Model", recs), ("Judge_Driver", drv)], prefixes=["C18"], sig_of=sig_of,
+        symbolic=("Apa_Speeds", ["InvEulerEigen", "InvSpectralRadius", "InvShallowWaterEigen"],
+                  "model level, beyond the grid: Apa_Speeds.tla proves with Apalache/Z3 that u - c, u, u + c are eigenvalues of the "
+                  "physical flux Jacobian (Euler, every rational gamma > 1; shallow water) for EVERY state, hence the spectral "
+                  "radius |u| + c the time step divides by"))
 
 
 if __name__ == "__main__":
